@@ -196,11 +196,11 @@ def probe_league(ctx, payload):
             if o.exc is not None:
                 out.append(("exc", type(o.exc).__name__))
             elif op == "predict_draw":
-                out.append([o.res.hex()])
+                out.append([float(o.res).hex()])
             elif op == "predict_win":
-                out.append([x.hex() for x in o.res])
+                out.append([float(x).hex() for x in o.res])
             else:
-                out.append([(r, p.hex()) for r, p in o.res])
+                out.append([(r, float(p).hex()) for r, p in o.res])
         return out
 
     def on_a(step, model, teams, kw, prior, call):
@@ -209,7 +209,7 @@ def probe_league(ctx, payload):
         if o.exc is not None:
             trace.append(("exc", type(o.exc).__name__))
             return None
-        trace.append((pr, [[(p.mu.hex(), p.sigma.hex()) for p in t] for t in o.res]))
+        trace.append((pr, [[(float(p.mu).hex(), float(p.sigma).hex()) for p in t] for t in o.res]))
         if stop_at is not None and step >= stop_at:
             return None
         return o.res
@@ -227,7 +227,7 @@ def probe_league(ctx, payload):
         if o.exc is not None:
             got = ("exc", type(o.exc).__name__)
         else:
-            got = (pr, [[(p.mu.hex(), p.sigma.hex()) for p in t] for t in o.res])
+            got = (pr, [[(float(p.mu).hex(), float(p.sigma).hex()) for p in t] for t in o.res])
         if got != trace[step]:
             what = "predictions" if (got[0] != trace[step][0]) else "ratings"
             ctx.violation("league/restored-differs", "league", dict(payload, stop_at=step),
